@@ -96,6 +96,7 @@ def variant_s(draw, epochs):
         "merge": st.sampled_from(["no", "no", "default", "opt", "custom"]),
         "subset": st.lists(st.integers(0, 5), max_size=3),
         "blocklimit": st.sampled_from([1, 3, 128]),
+        "inlinelimit": st.sampled_from([1, 1, 4]),
         "compression": st.sampled_from([0, 3]),
         "compound": st.booleans(),
         "writer": st.sampled_from(["seg", "seg", "buffered"]),
@@ -195,7 +196,7 @@ def build_variant(case, commits, path, info):
     epoch = 0
     for c in commits:
         ops = case["epochs"][epoch][c["range"][0]:c["range"][1]]
-        kw = {"codec": W3Codec(blocklimit=c["blocklimit"], compression=c["compression"])}
+        kw = {"codec": W3Codec(blocklimit=c["blocklimit"], compression=c["compression"], inlinelimit=c.get("inlinelimit", 1))}
         if not c["compound"]:
             kw["compound"] = False
         ck = {}
